@@ -50,6 +50,14 @@ META = {
         ('sequences_lib', 'quantize_note_sequence'),
         ('sequences_lib', 'quantize_note_sequence_absolute'),
         ('sequences_lib', 'quantize_to_step'),
+        ('lead_sheets_lib', 'LeadSheet.__init__'),
+        ('performance_lib', 'Performance.__init__'),
+        ('performance_lib', 'MetricPerformance.__init__'),
+        ('performance_lib', 'NotePerformance.__init__'),
+        ('performance_lib', '_program_and_is_drum_from_sequence'),
+        ('pianoroll_lib', 'PianorollSequence.__init__'),
+        ('events_lib', 'SimpleEventSequence.append'),
+        ('events_lib', 'SimpleEventSequence.__getitem__'),
     ],
     'assumptions': [
         'Q has the default 4/4 meter; no two notes of one pitch overlap (except '
@@ -58,6 +66,20 @@ META = {
         'tempo, steps_per_quarter / steps_per_second, velocity bins and shift '
         'limits come from the grids listed in the property (concrete per job); '
         'steps <= 8',
+        'h_shape / h_steps / h_tuples / h_perf_attrs / h_direct: the canonical '
+        'sequence is constructed (not extracted) and the expected events, '
+        'start / end step and resolution are the constructed ones; rest and '
+        'note lengths are choices from {0, 1, 2-3, a bar - 1, gap_bars bars '
+        '- 1, gap_bars bars}, pitches include 0 and 127 (rolls: both ends of '
+        'the range, pitches just outside it with shift_range); rendered '
+        'velocity / instrument / program are symbolic; sequence_start_time '
+        'is a whole number of bars and only used with start_step 0 (first '
+        'event lands on it); documented keyword semantics only: other '
+        'instrument extracts nothing, explicit program overrides the '
+        'performance\'s, drum performances report program None, '
+        'max_note_duration truncates (unused by NotePerformance), shifts / '
+        'durations beyond the NotePerformance limits raise, mismatching lead '
+        'sheet parts and a base_note_sequence of another tempo are rejected',
         'L-C06: standard model of floating point (each operation has relative '
         'error <= 2^-53), no overflow/underflow in the stated ranges; terms '
         'generated from the ASTs of the seven to_sequence renderers (every '
@@ -68,9 +90,17 @@ META = {
         'concrete instance near it fails on the real classes',
     ],
     'bounds': {
-        'quick': 'N<=2 notes on <=6 steps; 2-3 tempi per type',
+        'quick': 'N<=2 notes on <=6 steps (chords up to step 20); 2-3 tempi '
+                 'per type; constructed shapes: 2 notes / drum hits with rests '
+                 'up to gap_bars (1-2) bars at spq 1, 2, 4, lead sheets with '
+                 'one chord change, 5-step chord lists, 4-step rolls '
+                 '(default, 0..127 and 59..61 ranges), 3 note-performance '
+                 'tuples (limits 3/2 and 1000/1000), 2-note performances with '
+                 'program in {None,0,5,127} x is_drum in {None,False,True}; '
+                 'tempi 20, 93.7, 97.3, 120 (also by omission), 300',
         'thorough': 'N<=2 (3 for performances) on <=8 steps; full tempo and '
-                    'resolution grids',
+                    'resolution grids; constructed shapes at every spq of the '
+                    'grid',
     },
     'outside': ['meters other than 4/4', 'event lists longer than the bounds',
                 'symbolic tempo inside E1 (covered by L-C06 only)'],
@@ -220,6 +250,9 @@ def h_direct(c):
     b = [(e.event_type, e.event_value) for e in seq1]
     c.check(a == b, 'same performance events after the round trip')
     c.check(seq0.start_step == seq1.start_step, 'same start step')
+    c.check((seq1.steps_per_quarter == spq) if metric else
+            (seq1.steps_per_second == 100),
+            'same resolution (direct performance)')
     c.cover('third note returns to the first note\'s bin',
             bins_[0] == bins_[2] != bins_[1])
     return
@@ -278,7 +311,8 @@ def h_direct(c):
               (not e) or e == -2 for e in ev[1:spb]))
 
 
-def _chord_seq(c, Kc, S, spq):
+def _chord_seq(c, Kc, S, spq, figs=None):
+  figs = figs or c07._FIGS
   pb = c.pb
   TA = pb.NoteSequence.TextAnnotation
   ns = pb.NoteSequence()
@@ -286,7 +320,7 @@ def _chord_seq(c, Kc, S, spq):
   ns.time_signatures.add(numerator=4, denominator=4)
   for i in range(Kc):
     q = c.int('c%d_q' % i, 0, S)
-    ns.text_annotations.add(text=c07._FIGS[i], quantized_step=q,
+    ns.text_annotations.add(text=figs[i], quantized_step=q,
                             annotation_type=TA.CHORD_SYMBOL)
   return ns
 
@@ -295,7 +329,7 @@ def h_chords(c):
   cl = c.mod('chords_lib')
   sl = c.mod('sequences_lib')
   Kc, S, spq, qpm = c.params['K'], c.params['S'], c.params['spq'], c.params['qpm']
-  ns = _chord_seq(c, Kc, S, spq)
+  ns = _chord_seq(c, Kc, S, spq, c.params.get('figs'))
   start, end = c.params['start'], c.params['end']
   p0 = cl.ChordProgression()
   res, err = c.raises(p0.from_quantized_sequence, ns, start, end)
@@ -309,6 +343,11 @@ def h_chords(c):
   c.check(list(p0) == list(p1), 'same chords after the round trip')
   c.check(p0.start_step == p1.start_step and p0.end_step == p1.end_step and
           p0.steps_per_quarter == p1.steps_per_quarter, 'same steps, resolution')
+  c.check(p1.start_step == start and p1.end_step == end and
+          len(p1) == end - start and p1.steps_per_quarter == spq and
+          p1.steps_per_bar == 4 * spq,
+          'extracted progression covers exactly the requested window at the '
+          'sequence\'s resolution')
   c.cover('progression starting after step 0', start > 0)
 
 
@@ -439,19 +478,526 @@ def h_noteperf(c):
   N, S, sps, bins = c.params['N'], c.params['S'], c.params['sps'], c.params['bins']
   ns, notes, tq = c07._qseq(c, N, S, relative=False, sps=sps, vel=(1, 127),
                             instruments=(0, 0))
+  uniform = c.params.get('prog', False)
+  if uniform:
+    # one program / drum flag for the whole track (symbolic choice)
+    g_ = c.choice('prog', [0, 5, 127])
+    d_ = c.choice('drum', [False, True])
   for n in ns.notes:
-    n.is_drum = False
-    n.program = 0
+    n.is_drum = d_ if uniform else False
+    n.program = g_ if uniform else 0
   start = c.params.get('start', 0)
-  p0 = pl.NotePerformance(ns, bins, 0, start, 1000, 1000)
+  ms, md = c.params.get('ms', 1000), c.params.get('md', 1000)
+  p0, err = c.raises(pl.NotePerformance, ns, bins, 0, start, ms, md)
+  if err is not None:
+    # only possible with the non-default limits: Q has no canonical form
+    c.check(isinstance(err, pl.NotePerformanceError) and
+            (ms, md) != (1000, 1000), 'only the documented limit errors')
+    c.cover('first extraction exceeds a limit')
+    return
   seq = p0.to_sequence()
   q2 = sl.quantize_note_sequence_absolute(seq, sps)
-  p1 = pl.NotePerformance(q2, bins, 0, start, 1000, 1000)
+  p1 = pl.NotePerformance(q2, bins, 0, start, ms, md)
+  c.check(p0.steps_per_second == p1.steps_per_second == sps,
+          'same resolution (note performance)')
+  c.check(p0.max_shift_steps == p1.max_shift_steps == ms,
+          'same shift limit (note performance)')
+  if uniform and len(p0):
+    w_prog = None if d_ else g_
+    c.check(p0.is_drum == d_ and p0.program == w_prog and
+            c.And([c.And(n.is_drum == d_, n.program == (0 if d_ else g_))
+                   for n in seq.notes]) and
+            p1.is_drum == d_ and p1.program == w_prog,
+            'rendered notes and the re-extracted performance carry the '
+            'track\'s program / drum flag')
   c.check(p0.start_step == p1.start_step == start, 'same start step')
   a, b = list(p0), list(p1)
   c.check(len(a) == len(b) and bool(c.And(
       [c.And([c.eq(x.event_value, y.event_value) for x, y in zip(t, u)])
        for t, u in zip(a, b)] or [True])), 'same tuples after the round trip')
+
+
+# ---------------------------------------------------------------------------
+# canonical sequences given by construction, with the keyword arguments of the
+# renderers / extractors (instrument, velocity, program, sequence_start_time,
+# gap_bars, defaults by omission) and independent expected values
+
+
+def _junk(cls, ev):
+  """An object that already holds events at another position / resolution
+  (extraction must reset it)."""
+  return cls([ev] * 9, start_step=3, steps_per_bar=7, steps_per_quarter=5)
+
+
+def _wiring(c, rendered, qpm, vel=None, inst=None, prog=None):
+  """Documented meaning of the renderers' keyword arguments, read off the
+  rendered NoteSequence itself."""
+  c.check(len(rendered.tempos) == 1 and
+          c.approx(rendered.tempos[0].qpm, qpm),
+          'rendered sequence carries the requested tempo')
+  conds = []
+  for n in rendered.notes:
+    if vel is not None:
+      conds.append(c.eq(n.velocity, vel))
+    if inst is not None:
+      conds.append(c.eq(n.instrument, inst))
+    if prog is not None:
+      conds.append(c.eq(n.program, prog))
+  c.check(c.And(conds or [True]),
+          'every rendered note has the requested velocity / instrument / '
+          'program')
+
+
+def h_shape(c):
+  """Canonical Melody / DrumTrack / LeadSheet given by a SHAPE: the lengths of
+  the leading rest, of the notes and of the rest between them are
+  solver-closed choices (so whole bars at steps_per_quarter=4 stay cheap) and
+  the expected result of render -> quantize -> extract is written down here,
+  not taken from the extractor.  Keyword arguments: instrument / velocity /
+  program (symbolic), sequence_start_time (whole bars), gap_bars, pad_end,
+  everything omitted (`defaults`), extraction into a used object (`reuse`),
+  sequences built by append() or by slicing (`via`)."""
+  sl = c.mod('sequences_lib')
+  P = c.params
+  kind, spq = P['kind'], P['spq']
+  spb = 4 * spq
+  start, gap, pad = P.get('start', 0), P.get('gap', 1), P.get('pad', False)
+  qpm = P.get('qpm', 120)
+  defaults = P.get('defaults', False)
+  via = P.get('via', 'ctor')
+  sst_bars = P.get('sst_bars', 0)
+  assert not (sst_bars and start)
+  if defaults:
+    assert (spq, start, gap, pad, qpm, sst_bars) == (4, 0, 1, False, 120, 0)
+  small = kind == 'leadsheet'     # the chord choices multiply the paths
+  lead = c.choice('lead', [0, spb - 1] if small else [0, 1, spb - 1])
+  rests = sorted(set([0, 1, spb - 1, gap * spb - 1]))
+  if not pad and kind != 'leadsheet':
+    rests.append(gap * spb)      # not canonical: extraction ends at the gap
+  r1 = c.choice('r1', rests)
+  cut = r1 >= gap * spb
+  if kind == 'drums':
+    mod = c.mod('drums_lib')
+    cls, empty = mod.DrumTrack, frozenset()
+    e1 = c.choice('e1', [frozenset([36]), frozenset([0, 127]),
+                         frozenset([38, 42])])
+    e2 = c.choice('e2', [frozenset([36]), frozenset([38, 42])])
+    ev = [empty] * lead + [e1] + [empty] * r1 + [e2]
+    want = ev if not cut else [empty] * lead + [e1]
+  else:
+    mod = c.mod('melodies_lib')
+    cls, empty = mod.Melody, mod.MELODY_NO_EVENT
+    p1, p2 = c.choice('pp', [(60, 62), (0, 127)] if small else
+                      [(60, 62), (0, 127), (127, 0), (60, 60)])
+    d1 = c.choice('d1', [1, spb] if small else [1, 2, spb])
+    d2 = c.choice('d2', [1, 3])
+    ev = ([empty] * lead + [p1] + [empty] * (d1 - 1) +
+          ([mod.MELODY_NOTE_OFF] + [empty] * (r1 - 1) if r1 else []) +
+          [p2] + [empty] * (d2 - 1))
+    want = ev if not cut else [empty] * lead + [p1] + [empty] * (d1 - 1)
+  if pad:
+    # canonical for pad_end=True: a whole number of bars (a sustained last
+    # note / silence up to the bar line)
+    ev = ev + [empty] * (-len(ev) % spb)
+    want = ev
+  ev = list(ev)
+  geom = {} if defaults else dict(start_step=start, steps_per_bar=spb,
+                                  steps_per_quarter=spq)
+  if via == 'append':
+    seq0 = cls(**geom)
+    for e in ev:
+      seq0.append(e)
+  elif via == 'slice':
+    first = frozenset([36]) if kind == 'drums' else 60
+    full = cls([first] + [empty] * (spb - 1) + ev, **geom)
+    seq0 = full[spb:]
+    start += spb
+  else:
+    seq0 = cls(list(ev), **geom)
+  c.check(list(seq0) == ev and seq0.start_step == start and
+          seq0.end_step == start + len(ev) and seq0.steps_per_bar == spb and
+          seq0.steps_per_quarter == spq,
+          'constructed sequence has the given events, steps and resolution')
+  sps = 60.0 / qpm / spq
+  sst = sst_bars * spb * sps
+  vel = inst = prog = None
+  if defaults:
+    kw = {}
+    w_vel, w_inst, w_prog = 100, (9 if kind == 'drums' else 0), 0
+  else:
+    vel = c.int('vel', 1, 127)
+    inst = c.int('inst', 0, 15)
+    kw = dict(velocity=vel, instrument=inst, qpm=qpm)
+    if kind != 'leadsheet':
+      prog = c.int('prog', 0, 127)
+      kw['program'] = prog
+    if sst_bars:
+      kw['sequence_start_time'] = sst
+    w_vel, w_inst, w_prog = vel, inst, prog
+  chords0 = None
+  if kind == 'leadsheet':
+    cl = c.mod('chords_lib')
+    ls = c.mod('lead_sheets_lib')
+    fa = c.choice('fa', [cl.NO_CHORD, 'C'])
+    fb = c.choice('fb', ['C', 'G7', cl.NO_CHORD])
+    b = c.choice('b', [0, 1, len(ev) - 1])
+    chords0 = [fa] * b + [fb] * (len(ev) - b)
+    p0 = cl.ChordProgression(list(chords0), **geom)
+    obj = ls.LeadSheet(seq0, p0)
+    bad = cl.ChordProgression(list(chords0), start_step=start + spb,
+                              steps_per_bar=spb, steps_per_quarter=spq)
+    res, err = c.raises(ls.LeadSheet, seq0, bad)
+    c.check(isinstance(err, ls.MelodyChordsMismatchError),
+            'melody and chords at different positions are rejected')
+    bad = cl.ChordProgression(list(chords0), start_step=start,
+                              steps_per_bar=spb, steps_per_quarter=spq + 1)
+    res, err = c.raises(ls.LeadSheet, seq0, bad)
+    c.check(isinstance(err, ls.MelodyChordsMismatchError),
+            'melody and chords of different resolution are rejected')
+    c.check(obj.start_step == start and obj.end_step == start + len(ev) and
+            obj.steps_per_quarter == spq and obj.steps_per_bar == spb and
+            list(obj) == list(zip(ev, chords0)),
+            'lead sheet exposes the steps, resolution and events of its parts')
+  else:
+    obj = seq0
+  rendered = obj.to_sequence(**kw)
+  _wiring(c, rendered, qpm, w_vel, w_inst, w_prog)
+  c.check(list(seq0) == ev and seq0.start_step == start and
+          seq0.end_step == start + len(ev),
+          'rendering leaves the source sequence unchanged')
+  c.check(c.msg_eq(rendered, obj.to_sequence(**kw)),
+          'rendering twice gives the same NoteSequence')
+  if sst_bars and lead == 0:
+    c.check(c.approx(rendered.notes[0].start_time, sst),
+            'first note lands on sequence_start_time')
+  snap = c.snapshot(rendered)
+  q = sl.quantize_note_sequence(rendered, spq)
+  c.check(c.msg_eq(rendered, snap), 'quantizing leaves its input unchanged')
+  want_start = start + sst_bars * spb
+  cls1 = cls
+  seq1 = _junk(cls1, ev[lead]) if P.get('reuse') else cls1()
+  search = c.choice('search', [0, want_start]) if want_start else 0
+  if defaults:
+    seq1.from_quantized_sequence(q)
+  elif kind == 'drums':
+    seq1.from_quantized_sequence(q, search_start_step=search, gap_bars=gap,
+                                 pad_end=pad)
+  else:
+    seq1.from_quantized_sequence(q, search_start_step=search, instrument=inst,
+                                 gap_bars=gap, pad_end=pad)
+    other = cls1()
+    other.from_quantized_sequence(q, search_start_step=search,
+                                  instrument=inst + 1, gap_bars=gap,
+                                  pad_end=pad)
+    c.check(len(other) == 0, 'nothing is extracted for another instrument')
+  c.check(list(seq1) == list(want), 'same events after the round trip (shape)')
+  c.check(seq1.start_step == want_start and
+          seq1.end_step == want_start + len(want),
+          'same start and end step (shape)')
+  c.check(seq1.steps_per_quarter == spq and seq1.steps_per_bar == spb,
+          'same resolution (shape)')
+  c.cover('rest of exactly gap_bars ends the extraction', cut)
+  c.cover('longest rest that does not end the extraction',
+          r1 == gap * spb - 1)
+  if kind == 'leadsheet':
+    p1_ = _junk(cl.ChordProgression, 'G7') if P.get('reuse') else (
+        cl.ChordProgression())
+    p1_.from_quantized_sequence(q, seq1.start_step, seq1.end_step)
+    c.check(list(p1_) == chords0, 'same chords after the round trip (shape)')
+    sheet1, err = c.raises(ls.LeadSheet, seq1, p1_)
+    c.check(err is None and list(sheet1) == list(zip(ev, chords0)),
+            'extracted melody and chords form the same lead sheet')
+
+
+def h_steps(c):
+  """Canonical ChordProgression / PianorollSequence built DIRECTLY from an
+  event list (every step a solver-closed choice; every such list is
+  canonical), rendered, quantized and extracted again; expected values are the
+  constructed ones."""
+  sl = c.mod('sequences_lib')
+  P = c.params
+  kind, L, spq, qpm = P['kind'], P['L'], P['spq'], P['qpm']
+  spb = 4 * spq
+  start = P.get('start', 0)
+  sst_bars = P.get('sst_bars', 0)
+  assert not (sst_bars and start)
+  sps = 60.0 / qpm / spq
+  if kind == 'chords':
+    cl = c.mod('chords_lib')
+    ev = [c.choice('e%d' % i, [cl.NO_CHORD, 'C', 'G7']) for i in range(L)]
+    seq0 = cl.ChordProgression(list(ev), start_step=start, steps_per_bar=spb,
+                               steps_per_quarter=spq)
+    kw = dict(qpm=qpm)
+    if sst_bars:
+      kw['sequence_start_time'] = sst_bars * spb * sps
+    rendered = seq0.to_sequence(**kw)
+    c.check(len(rendered.tempos) == 1 and
+            c.approx(rendered.tempos[0].qpm, qpm),
+            'rendered sequence carries the requested tempo')
+    c.check(list(seq0) == ev and seq0.start_step == start and
+            seq0.end_step == start + L,
+            'rendering leaves the source sequence unchanged')
+    c.check(c.msg_eq(rendered, seq0.to_sequence(**kw)),
+            'rendering twice gives the same NoteSequence')
+    if sst_bars and ev[0] != cl.NO_CHORD:
+      c.check(c.approx(rendered.text_annotations[0].time,
+                       sst_bars * spb * sps),
+              'first chord lands on sequence_start_time')
+    q = sl.quantize_note_sequence(rendered, spq)
+    w0 = start + sst_bars * spb
+    seq1 = _junk(cl.ChordProgression, 'G7') if P.get('reuse') else (
+        cl.ChordProgression())
+    seq1.from_quantized_sequence(q, w0, w0 + L)
+    c.check(list(seq1) == ev, 'same chords after the round trip (direct)')
+    c.check(seq1.start_step == w0 and seq1.end_step == w0 + L,
+            'same start and end step (direct chords)')
+    c.check(seq1.steps_per_quarter == spq and seq1.steps_per_bar == spb,
+            'same resolution (direct chords)')
+    c.cover('progression returns to an earlier chord',
+            L >= 3 and ev[0] == ev[2] != ev[1])
+    c.cover('explicit no-chord inside the progression',
+            L >= 3 and ev[1] == cl.NO_CHORD and ev[0] != cl.NO_CHORD)
+    return
+  pr = c.mod('pianoroll_lib')
+  split = P['split']
+  rng = P.get('range')              # None: constructor defaults 21..108
+  lo, hi = rng if rng else (21, 108)
+  pk = {} if rng is None else dict(min_pitch=lo, max_pitch=hi)
+  top = hi - lo
+  shift = P.get('shift', False)
+  if shift:
+    # events in MIDI pitches, including pitches just outside the range
+    raw = [c.choice('e%d' % i, [(), (lo,), (lo - 1, lo, hi), (hi, hi + 1)])
+           for i in range(L)]
+    ev = [tuple(p - lo for p in e if lo <= p <= hi) for e in raw]
+    r0 = pr.PianorollSequence(events_list=list(raw), steps_per_quarter=spq,
+                              start_step=start, shift_range=True, **pk)
+  else:
+    ev = [c.choice('e%d' % i, [(), (0,), (0, top), (top,)]) for i in range(L)]
+    r0 = pr.PianorollSequence(events_list=list(ev), steps_per_quarter=spq,
+                              start_step=start, **pk)
+  # an empty events_list is "no list": keep one sounding step
+  c.assume(any(len(e) > 0 for e in ev))
+  c.check([tuple(e) for e in r0] == ev and r0.start_step == start and
+          r0.steps_per_quarter == spq and r0.end_step == start + L,
+          'constructed roll has the given events (shifted and filtered when '
+          'shift_range), start step and resolution')
+  vel = c.int('vel', 1, 127)
+  inst = c.int('inst', 0, 15)
+  prog = c.int('prog', 0, 127)
+  kw = dict(velocity=vel, instrument=inst, program=prog, qpm=qpm)
+  base = None
+  if P.get('base'):
+    base = c.pb.NoteSequence()
+    base.tempos.add(qpm=qpm)
+    base.ticks_per_quarter = 480
+    base.time_signatures.add(numerator=4, denominator=4)
+    kw['base_note_sequence'] = base
+    wrong = c.pb.NoteSequence()
+    wrong.tempos.add(qpm=qpm + 1)
+    res, err = c.raises(r0.to_sequence, qpm=qpm, base_note_sequence=wrong)
+    c.check(isinstance(err, ValueError),
+            'base_note_sequence with another tempo is rejected')
+  rendered = r0.to_sequence(**kw)
+  _wiring(c, rendered, qpm, vel, inst, prog)
+  if base is not None:
+    c.check(rendered.ticks_per_quarter == 480 and
+            len(rendered.time_signatures) == 1 and len(base.notes) == 0,
+            'base_note_sequence is the starting point and is not modified')
+  c.check([tuple(e) for e in r0] == ev,
+          'rendering leaves the source sequence unchanged')
+  c.check(c.msg_eq(rendered, r0.to_sequence(**kw)),
+          'rendering twice gives the same NoteSequence')
+  c.check(c.And([c.And(n.pitch >= lo, n.pitch <= hi) for n in rendered.notes]
+                or [True]), 'rendered pitches lie in the roll\'s range')
+  q = sl.quantize_note_sequence(rendered, spq)
+  r1 = pr.PianorollSequence(quantized_sequence=q, start_step=start,
+                            split_repeats=split, **pk)
+  c.check([tuple(int(x) for x in e) for e in r1] == ev,
+          'same events after the round trip (direct roll)')
+  c.check(r1.start_step == start and r1.end_step == start + L and
+          r1.steps_per_quarter == spq,
+          'same start / end step and resolution (direct roll)')
+  c.cover('roll ends with a silent step (direct)', len(ev[-1]) == 0)
+  c.cover('lowest and highest pitch of the range together',
+          any(e == (0, top) for e in ev))
+
+
+def h_tuples(c):
+  """Canonical NotePerformance given directly as (shift, pitch, velocity bin,
+  duration) tuples appended to an empty performance, with non-default shift /
+  duration limits; tuples beyond a limit cannot be extracted (documented
+  errors)."""
+  pl = c.mod('performance_lib')
+  sl = c.mod('sequences_lib')
+  P = c.params
+  sps, nb, start = P['sps'], P['bins'], P.get('start', 0)
+  ms, md = P.get('ms'), P.get('md')
+  PE = pl.PerformanceEvent
+  empty = c.pb.NoteSequence()
+  empty.quantization_info.steps_per_second = sps
+  lim = {} if ms is None else dict(max_shift_steps=ms, max_duration_steps=md)
+  lim_s = 1000 if ms is None else ms
+  lim_d = 1000 if md is None else md
+  p0 = pl.NotePerformance(empty, nb, start_step=start, **lim)
+  want = []
+  for i, pitch in enumerate((60, 64)):
+    sh = c.choice('sh%d' % i, sorted(set([0, 1, lim_s, lim_s + 1])))
+    du = c.choice('du%d' % i, sorted(set([1, lim_d, lim_d + 1])))
+    b = c.choice('b%d' % i, sorted(set([1, nb])))
+    want.append((sh, pitch, b, du))
+  want.append((0, 67, 1, 1))
+  for sh, pitch, b, du in want:
+    p0.append((PE(PE.TIME_SHIFT, sh), PE(PE.NOTE_ON, pitch),
+               PE(PE.VELOCITY, b), PE(PE.DURATION, du)))
+  inst = c.int('inst', 0, 15)
+  prog = c.int('prog', 0, 127)
+  kw = dict(instrument=inst, program=prog)
+  if P.get('mnd'):
+    kw['max_note_duration'] = 0.5 / sps      # documented as not used
+  rendered = p0.to_sequence(**kw)
+  conds = [c.And(c.eq(n.instrument, inst), c.eq(n.program, prog))
+           for n in rendered.notes]
+  c.check(len(rendered.notes) == 3 and bool(c.And(conds)),
+          'one rendered note per tuple, with the requested instrument / '
+          'program')
+  c.check(c.msg_eq(rendered, p0.to_sequence(**kw)),
+          'rendering twice gives the same NoteSequence')
+  q = sl.quantize_note_sequence_absolute(rendered, sps)
+  ie = c.choice('extract', ['same', 'all', 'other'])
+  xi = {'same': inst, 'all': None, 'other': inst + 1}[ie]
+  p1, err = c.raises(pl.NotePerformance, q, nb, instrument=xi,
+                     start_step=start, **lim)
+  over_s = any(t[0] > lim_s for t in want)
+  over_d = any(t[3] > lim_d for t in want)
+  c.cover('tuple beyond a limit', over_s or over_d)
+  if ie == 'other':
+    c.check(err is None and len(p1) == 0,
+            'nothing is extracted for another instrument')
+    return
+  if over_s or over_d:
+    c.check(isinstance(err, pl.NotePerformanceError) and
+            (over_d or isinstance(err, pl.TooManyTimeShiftStepsError)) and
+            (over_s or isinstance(err, pl.TooManyDurationStepsError)),
+            'a shift / duration beyond the limit is rejected')
+    return
+  c.check(err is None, 'tuples within the limits are extracted')
+  if err is not None:
+    return
+  got = [tuple(e.event_value for e in t) for t in p1]
+  types = [tuple(e.event_type for e in t) for t in p1]
+  c.check(got == want and all(
+      t == (PE.TIME_SHIFT, PE.NOTE_ON, PE.VELOCITY, PE.DURATION)
+      for t in types), 'same tuples after the round trip (direct)')
+  c.check(p1.start_step == start and p1.steps_per_second == sps and
+          p1.max_shift_steps == lim_s,
+          'same start step, resolution and shift limit (direct tuples)')
+
+
+def h_perf_attrs(c):
+  """program / is_drum / instrument / velocity / max_note_duration of
+  Performance and MetricPerformance: what to_sequence writes and what the
+  re-extracted performance reports, against the docstrings."""
+  pl = c.mod('performance_lib')
+  sl = c.mod('sequences_lib')
+  P = c.params
+  metric, nb, start = P['metric'], P['bins'], P.get('start', 0)
+  qpm = P.get('qpm')           # None: to_sequence() without qpm (120)
+  spq = P.get('spq', 4)
+  PE = pl.PerformanceEvent
+  prog0 = c.choice('prog0', [None, 0, 5, 127])
+  drum0 = c.choice('drum0', [None, False, True])
+  if metric:
+    p0 = pl.MetricPerformance(steps_per_quarter=spq, start_step=start,
+                              num_velocity_bins=nb, program=prog0,
+                              is_drum=drum0)
+    sec = 60.0 / (spq * (120.0 if qpm is None else qpm))
+  else:
+    p0 = pl.Performance(steps_per_second=100, start_step=start,
+                        num_velocity_bins=nb, program=prog0, is_drum=drum0)
+    sec = 1.0 / 100
+  c.check(p0.program == prog0 and p0.is_drum == drum0,
+          'constructor keeps program / is_drum')
+  a = c.choice('a', [1, 2])
+  b = c.choice('b', [1, 3])
+  ev = []
+  if nb:
+    ev.append(PE(PE.VELOCITY, nb))
+  ev += [PE(PE.NOTE_ON, 60), PE(PE.TIME_SHIFT, a)]
+  if nb:
+    ev.append(PE(PE.VELOCITY, 1))
+  ev += [PE(PE.NOTE_ON, 64), PE(PE.TIME_SHIFT, b), PE(PE.NOTE_OFF, 60),
+         PE(PE.NOTE_OFF, 64)]
+  for e in ev:
+    p0.append(e)
+  vel = c.int('vel', 1, 127)
+  inst = c.int('inst', 0, 15)
+  over = c.choice('program', [None, 7])
+  mnd = c.choice('mnd', [None, 'generous', 'one step'])
+  kw = dict(velocity=vel, instrument=inst, program=over)
+  if mnd == 'generous':
+    kw['max_note_duration'] = 1000 * sec
+  elif mnd == 'one step':
+    kw['max_note_duration'] = sec
+  if metric and qpm is not None:
+    kw['qpm'] = qpm
+  rendered = p0.to_sequence(**kw)
+  w_prog = over if over is not None else (prog0 if prog0 is not None else 0)
+  conds = [c.And(c.eq(n.instrument, inst), n.program == w_prog)
+           for n in rendered.notes]
+  if drum0 is not None:
+    conds += [n.is_drum == drum0 for n in rendered.notes]
+  if not nb:
+    conds += [c.eq(n.velocity, vel) for n in rendered.notes]
+  c.check(len(rendered.notes) == 2 and bool(c.And(conds)),
+          'rendered notes carry the requested instrument, the explicit or the '
+          'performance\'s program, its is_drum and (without bins) velocity')
+  if metric:
+    c.check(len(rendered.tempos) == 1 and c.approx(
+        rendered.tempos[0].qpm, 120.0 if qpm is None else qpm),
+            'rendered sequence carries the requested tempo')
+  c.check(p0.program == prog0 and p0.is_drum == drum0 and
+          [(e.event_type, e.event_value) for e in p0] ==
+          [(e.event_type, e.event_value) for e in ev] and
+          p0.start_step == start,
+          'rendering leaves the performance unchanged')
+  c.check(c.msg_eq(rendered, p0.to_sequence(**kw)),
+          'rendering twice gives the same NoteSequence')
+  if metric:
+    q = sl.quantize_note_sequence(rendered, spq)
+  else:
+    q = sl.quantize_note_sequence_absolute(rendered, 100)
+  if mnd == 'one step':
+    # both notes are longer than or equal to one step: truncated to one step
+    c.check(all(n.quantized_end_step - n.quantized_start_step == 1
+                for n in q.notes) and
+            sorted((n.pitch, n.quantized_start_step) for n in q.notes) ==
+            [(60, start), (64, start + a)],
+            'notes longer than max_note_duration are truncated to it')
+    return
+  ie = c.choice('extract', ['same', 'all', 'other'])
+  xi = {'same': inst, 'all': None, 'other': inst + 1}[ie]
+  if metric:
+    p1 = pl.MetricPerformance(q, start_step=start, num_velocity_bins=nb,
+                              instrument=xi)
+    c.check(p1.steps_per_quarter == spq, 'same resolution (attrs)')
+  else:
+    p1 = pl.Performance(q, start_step=start, num_velocity_bins=nb,
+                        instrument=xi)
+    c.check(p1.steps_per_second == 100, 'same resolution (attrs)')
+  if ie == 'other':
+    c.check(len(p1) == 0, 'nothing is extracted for another instrument')
+    return
+  c.check([(e.event_type, e.event_value) for e in p1] ==
+          [(e.event_type, e.event_value) for e in ev] and
+          p1.start_step == start, 'same events and start step (attrs)')
+  if drum0 is not None:
+    c.check(p1.is_drum == drum0 and
+            (p1.program is None if drum0 else p1.program == w_prog),
+            'extracted performance reports the rendered program / is_drum')
+  c.cover('drum performance', drum0 is True)
+  c.cover('explicit program overrides the performance\'s',
+          over is not None and prog0 is not None and prog0 != over)
 
 
 HARNESSES = {
@@ -463,6 +1009,10 @@ HARNESSES = {
     'h_performance': h_performance,
     'h_noteperf': h_noteperf,
     'h_direct': h_direct,
+    'h_shape': h_shape,
+    'h_steps': h_steps,
+    'h_tuples': h_tuples,
+    'h_perf_attrs': h_perf_attrs,
 }
 
 
@@ -874,6 +1424,66 @@ def jobs(tier):
   add('h_direct', kind='perf', L=0, spq=4, qpm=120, bins=2, msq=7, budget=600)
   add('h_direct', kind='perf', L=0, spq=12, qpm=93.7, bins=3, start=96,
       metric=True, budget=600)
+  # --- keyword arguments, sibling situations and outputs that the round trip
+  # above never varied / compared
+  # chords before AND inside a shifted window at spq=4; return to an earlier
+  # figure
+  add('h_chords', K=2, S=20, spq=4, qpm=97.3, start=16, end=20)
+  add('h_chords', K=3, S=5, spq=1, qpm=97.3, start=0, end=5,
+      figs=['C', 'G7', 'C'])
+  # two notes in a roll that starts in the second bar
+  add('h_pianoroll', N=2, S=6, spq=1, qpm=120, split=True, start=4)
+  # non-default NotePerformance limits; program / drum flag of the track
+  add('h_noteperf', N=2, S=6, sps=100, bins=32, ms=3, md=2)
+  add('h_noteperf', N=2, S=5, sps=31, bins=4, prog=True)
+  # shapes with whole bars at steps_per_quarter 4 (steps_per_bar 16), boundary
+  # pitches, instrument / velocity / program, gap_bars, sequence_start_time,
+  # omitted arguments, append()/slice-built sources, reused target objects
+  add('h_shape', kind='melody', spq=4, qpm=97.3)
+  add('h_shape', kind='melody', spq=4, defaults=True)
+  add('h_shape', kind='melody', spq=4, defaults=True, via='append')
+  add('h_shape', kind='melody', spq=4, qpm=300, start=16, pad=True, reuse=True)
+  add('h_shape', kind='melody', spq=1, qpm=20, gap=2, via='slice')
+  add('h_shape', kind='melody', spq=2, qpm=97.3, sst_bars=1)
+  add('h_shape', kind='drums', spq=4, qpm=97.3, reuse=True)
+  add('h_shape', kind='drums', spq=4, defaults=True, via='append')
+  add('h_shape', kind='drums', spq=1, qpm=300, gap=2, start=4, via='slice')
+  add('h_shape', kind='drums', spq=2, qpm=20, sst_bars=2, pad=True)
+  add('h_shape', kind='leadsheet', spq=4, qpm=97.3)
+  add('h_shape', kind='leadsheet', spq=1, qpm=300, start=4, pad=True,
+      reuse=True)
+  add('h_shape', kind='leadsheet', spq=2, qpm=20, sst_bars=1)
+  # chord progressions / piano rolls / note-performance tuples given directly
+  add('h_steps', kind='chords', L=5, spq=4, qpm=97.3, start=16)
+  add('h_steps', kind='chords', L=5, spq=1, qpm=300, sst_bars=1, reuse=True)
+  add('h_steps', kind='roll', L=4, spq=1, qpm=97.3, split=True)
+  add('h_steps', kind='roll', L=4, spq=4, qpm=20, split=False, start=16,
+      range=[0, 127], base=True)
+  add('h_steps', kind='roll', L=4, spq=2, qpm=300, split=True, start=8,
+      range=[59, 61], shift=True)
+  add('h_tuples', sps=100, bins=32)
+  add('h_tuples', sps=31, bins=4, ms=3, md=2, start=2, mnd=True)
+  # program / is_drum / instrument / velocity / max_note_duration of
+  # performances
+  add('h_perf_attrs', metric=False, bins=0)
+  add('h_perf_attrs', metric=False, bins=4, start=2)
+  add('h_perf_attrs', metric=True, bins=0, spq=4)
+  add('h_perf_attrs', metric=True, bins=4, spq=12, qpm=93.7, start=96)
+  if deep:
+    for i, spq in enumerate((2, 3, 6, 8, 12, 24)):
+      qpm = tempi[i % 4]
+      add('h_shape', kind='melody', spq=spq, qpm=qpm, gap=1 + i % 2,
+          start=4 * spq * (i % 3), budget=900)
+      add('h_shape', kind='drums', spq=spq, qpm=qpm, gap=1 + i % 2,
+          pad=bool(i % 2), budget=900)
+      add('h_shape', kind='leadsheet', spq=spq, qpm=qpm, budget=900)
+      add('h_steps', kind='chords', L=6, spq=spq, qpm=qpm, start=4 * spq,
+          budget=900)
+      add('h_steps', kind='roll', L=5, spq=spq, qpm=qpm, split=bool(i % 2),
+          start=4 * spq, budget=900)
+    for sps in (10, 250):
+      add('h_tuples', sps=sps, bins=127, ms=1000, md=1, budget=900)
+      add('h_tuples', sps=sps, bins=1, ms=1, md=1000, budget=900)
   if deep:
     for sps in (10, 31, 100, 250):
       for bins in (0, 1, 4, 32, 127):
